@@ -23,7 +23,7 @@ def post_gen(plan, w, model):
 
 
 PROFILE = H.Profile('c12', nops=(5, 22),
-                    weights={'add_boot_file': 16, 'add_eltorito': 24, 'add_isohybrid': 22, 'rm_isohybrid': 1, 'rm_eltorito': 1, 'add_fp': 10,
+                    weights={'add_boot_file': 16, 'add_eltorito': 24, 'add_isohybrid': 22, 'hybrid_setup': 6, 'rm_isohybrid': 1, 'rm_eltorito': 1, 'add_fp': 10,
                              'add_dir': 5, 'rm_file': 4, 'rm_link': 2, 'add_link': 2, 'dup_pvd': 0, 'add_symlink': 1, 'hide': 1, 'restart': 4},
                     sizes=(0, 1, 100, 2047, 2048, 2049, 6144, 20480, 65535, 300000))
 
